@@ -12,6 +12,7 @@ import (
 	"google.golang.org/protobuf/encoding/protowire"
 	"google.golang.org/protobuf/internal/simcore"
 	"google.golang.org/protobuf/proto"
+	"google.golang.org/protobuf/reflect/protoreflect"
 	"google.golang.org/protobuf/zverifsim/gen"
 	"google.golang.org/protobuf/zverifsim/scn"
 	"google.golang.org/protobuf/zverifsim/sim"
@@ -77,6 +78,11 @@ func (c27) Gen(r *sim.Rng, tier string) *scn.Scn {
 	if r.Chance(1, 3) {
 		s.P["reuse_target"] = 1 // the caller decodes every frame of a type into the same message value
 	}
+	if r.Chance(1, 3) {
+		// the writer fills one message value per type again and again: every frame after the first of a
+		// type is written from the value that was written (and sized) before, changed in place
+		s.P["writer_reuse"] = int64(1 + r.Intn(2)) // 2: the value is also passed to proto.Size before each change
+	}
 	s.P["maxsize_mode"] = int64(r.Intn(6)) // 0 default, 1 unlimited, 2 size-1, 3 size, 4 size+1, 5 default
 	if n > 0 {
 		s.P["maxsize_frame"] = int64(r.Intn(n))
@@ -123,6 +129,7 @@ func (c27) Gen(r *sim.Rng, tier string) *scn.Scn {
 
 type c27Frame struct {
 	msg        proto.Message // nil for raw-header
+	wmsg       proto.Message // the value handed to MarshalTo, if it is not msg itself (a recycled value with the same content)
 	typ        string
 	start, hdr int
 	end        int
@@ -316,8 +323,46 @@ func (c27) Run(s *scn.Scn, x *sim.Exec) {
 	// Write the stream with the real MarshalTo into a plain buffer and take
 	// frame geometry from an independent computation (protowire + proto.Size).
 	var out sliceWriter
+	live := map[string]proto.Message{}
 	for i := range frames {
 		f := &frames[i]
+		if f.msg != nil && !f.partial && s.P["writer_reuse"] > 0 {
+			if obj, ok := live[f.typ]; ok {
+				// change the value written before into this frame's content, in place, the way a caller
+				// that recycles one message value does: field by field, no Reset
+				if s.P["writer_reuse"] == 2 {
+					proto.Size(obj)
+				}
+				or, nr := obj.ProtoReflect(), f.msg.ProtoReflect()
+				fds := or.Descriptor().Fields()
+				for k := 0; k < fds.Len(); k++ {
+					fd := fds.Get(k)
+					switch {
+					case !nr.Has(fd):
+						or.Clear(fd)
+					case fd.IsList() || fd.IsMap() || fd.Message() != nil:
+						or.Clear(fd)
+						tmp := proto.Clone(f.msg).ProtoReflect()
+						or.Set(fd, tmp.Get(fd))
+					case fd.Kind() == protoreflect.BytesKind:
+						or.Set(fd, protoreflect.ValueOfBytes(append([]byte(nil), nr.Get(fd).Bytes()...)))
+					default:
+						or.Set(fd, nr.Get(fd))
+					}
+				}
+				or.SetUnknown(append([]byte(nil), nr.GetUnknown()...))
+				if proto.Equal(obj, f.msg) {
+					f.msg = proto.Clone(f.msg) // what the frame must read back as, kept apart from the recycled value
+					x.Probe("frames-written-from-a-recycled-value", 1)
+					// the recycled value itself is what goes to MarshalTo
+					f.wmsg = obj
+				}
+			} else {
+				live[f.typ] = f.msg
+				f.wmsg = f.msg
+				f.msg = proto.Clone(f.msg)
+			}
+		}
 		if f.msg == nil {
 			ns := len(out.b)
 			out.b = append(out.b, stream[f.start:]...)
@@ -328,10 +373,14 @@ func (c27) Run(s *scn.Scn, x *sim.Exec) {
 		f.start = len(out.b)
 		var n int
 		var err error
+		wm := f.msg
+		if f.wmsg != nil {
+			wm = f.wmsg
+		}
 		if f.partial {
-			n, err = protodelim.MarshalOptions{MarshalOptions: proto.MarshalOptions{AllowPartial: true}}.MarshalTo(&out, f.msg)
+			n, err = protodelim.MarshalOptions{MarshalOptions: proto.MarshalOptions{AllowPartial: true}}.MarshalTo(&out, wm)
 		} else {
-			n, err = protodelim.MarshalTo(&out, f.msg)
+			n, err = protodelim.MarshalTo(&out, wm)
 		}
 		if err != nil {
 			x.Fail("marshalto-error", "MarshalTo into a plain buffer failed: %v", err)
